@@ -62,24 +62,31 @@ def brief(v):
 # class specs: factory, twin, mutators, extra queries
 # --------------------------------------------------------------------------
 
-def conn_graph(rng, n, p=0.35, directed=False):
+def conn_graph(rng, n, p=0.35, directed=False, components=None):
+    """random graph with `components` connected components (default: 1, sometimes 2 — several
+    measures take different code paths on disconnected networks: infinite path lengths)"""
+    if components is None:
+        components = 2 if (n >= 6 and rng.random() < 0.35) else 1
     A = np.zeros((n, n), dtype=int)
     perm = list(range(n))
     rng.shuffle(perm)
-    for a, b in zip(perm, perm[1:]):
-        A[a, b] = A[b, a] = 1
-    for a in range(n):
-        for b in range(a + 1, n):
-            if rng.random() < p:
-                A[a, b] = A[b, a] = 1
+    cut = n if components == 1 else rng.randrange(2, n - 2)
+    parts = [perm[:cut], perm[cut:]] if components == 2 else [perm]
+    for part in parts:
+        for a, b in zip(part, part[1:]):
+            A[a, b] = A[b, a] = 1
+        for i, a in enumerate(part):
+            for b in part[i + 1:]:
+                if rng.random() < p:
+                    A[a, b] = A[b, a] = 1
     if directed:
         for a in range(n):
             for b in range(n):
                 if a != b and A[a, b] and rng.random() < 0.3:
                     A[a, b] = 0
-        # keep it weakly connected enough: restore the path one way
-        for a, b in zip(perm, perm[1:]):
-            A[a, b] = 1
+        for part in parts:
+            for a, b in zip(part, part[1:]):
+                A[a, b] = 1
     return A
 
 
@@ -324,7 +331,7 @@ def spec_resnetwork():
 
     def make(rng):
         n = rng.choice([5, 6])
-        A = conn_graph(rng, n, 0.4)
+        A = conn_graph(rng, n, 0.4, components=1)
         o = ResNetwork(res_matrix(rng, A), silence_level=3)
         o._verif_A = A
         return o
@@ -546,6 +553,33 @@ def skip_now(obj, m):
     return False
 
 
+NOT_QUERIES = {"copy", "undirected_copy", "permuted_copy", "splitted_copy", "save", "cache_clear",
+               "clear_cache", "nsi_spreading", "spreading", "distance_based_measures", "edge_list",
+               "save_for_cgv", "print_boundaries", "info", "rqa_summary", "recurrence_probability",
+               "resample_diagline_dist", "resample_vertline_dist", "twin_surrogates", "twins",
+               "white_noise_surrogates", "correlated_noise_surrogates", "AAFT_surrogates",
+               "refined_AAFT_surrogates", "normalize_original_data", "clear_cache"}
+
+
+def public_queries(cls, table):
+    """public methods callable without arguments that are not mutators of the class table:
+    uncached wrappers around cached workers (e.g. nsi_betweenness) must be coherent too"""
+    muts = set(table.get("mutators", {}))
+    out = set()
+    for name in dir(cls):
+        if name.startswith("_") or name in NOT_QUERIES or name in muts or \
+                name.startswith(("set_", "update_", "randomly_", "del_", "Load", "Small", "From",
+                                 "Model", "Erdos", "Barabasi", "Configuration", "Watts", "Regular")):
+            continue
+        fn = inspect.getattr_static(cls, name)
+        if isinstance(fn, (staticmethod, classmethod, property)) or not callable(getattr(cls, name)):
+            continue
+        if any(t in name.lower() for t in ("shuffled", "surrogate", "random", "bootstrap")):
+            continue            # randomised by documentation: not a deterministic query
+        out.add(name)
+    return out
+
+
 def eval_summary(o, expr):
     if expr.endswith(")"):
         return quiet(eval, "o." + expr, {"o": o})
@@ -603,7 +637,7 @@ def run(ctx):
         onames = sorted(t.get("mutators", {}))
         queries = []
         if not spec.get("only_summary"):
-            for m in mnames:
+            for m in sorted(set(mnames) | public_queries(cls, t)):
                 if m in SKIP_QUERIES or not hasattr(cls, m):
                     continue
                 for kw in query_variants(cls, m, spec["argsets"]):
